@@ -271,6 +271,17 @@ func (st *programState) pushSender(name string, monetary *big.Int) {
 	st.Senders = append(st.Senders, Sender{Name: name, Monetary: monetary})
 }
 
+// amount already taken from an account by the statement being executed
+func (st *programState) alreadySent(account string) *big.Int {
+	total := new(big.Int)
+	for _, sender := range st.Senders {
+		if sender.Name == account {
+			total.Add(total, sender.Monetary)
+		}
+	}
+	return total
+}
+
 func (st *programState) pushReceiver(name string, monetary *big.Int) {
 	if monetary.Cmp(big.NewInt(0)) == 0 {
 		return
@@ -442,8 +453,10 @@ func (s *programState) sendAllToAccount(accountLiteral parser.ValueExpr, ovedraf
 
 	balance := s.getCachedBalance(*account, s.CurrentAsset)
 
-	// we sent balance+overdraft (never less than zero)
+	// we sent balance+overdraft, minus what this statement already took
+	// from the same account (never less than zero)
 	sentAmt := new(big.Int).Add(balance, ovedraft)
+	sentAmt.Sub(sentAmt, s.alreadySent(*account))
 	if sentAmt.Sign() < 0 {
 		sentAmt.SetInt64(0)
 	}
@@ -533,8 +546,10 @@ func (s *programState) trySendingToAccount(accountLiteral parser.ValueExpr, amou
 		balance := s.getCachedBalance(*account, s.CurrentAsset)
 
 		// that's the amount we are allowed to send (balance + overdraft),
-		// which is zero when the account is already below its overdraft limit
+		// minus what this statement already took from the same account;
+		// it is zero when the account is already below its overdraft limit
 		safeSendAmt := new(big.Int).Add(balance, overdraft)
+		safeSendAmt.Sub(safeSendAmt, s.alreadySent(*account))
 		if safeSendAmt.Sign() < 0 {
 			safeSendAmt.SetInt64(0)
 		}
